@@ -32,6 +32,7 @@ type Scanner struct {
 	column           uint
 	startLine        uint // to construct valid ranges
 	startColumn      uint // to construct valid ranges
+	startIndent      uint // indentation of the line the current token starts on
 	indent           uint
 	shouldIndent     bool // check wether the next whitespace should be counted as indent
 	shouldCapitalize bool // check wether the next character should be capitalized
@@ -100,7 +101,7 @@ func (s *Scanner) ScanAll() []token.Token {
 // if all tokens were scanned it returns EOF
 func (s *Scanner) NextToken() token.Token {
 	s.skipWhitespace()
-	s.start, s.startLine, s.startColumn = s.cur, s.line, s.column
+	s.start, s.startLine, s.startColumn, s.startIndent = s.cur, s.line, s.column, s.indent
 
 	if s.atEnd() {
 		return s.newToken(token.EOF)
@@ -368,7 +369,7 @@ func (s *Scanner) newToken(tokenType token.TokenType) token.Token {
 	return token.Token{
 		Type:      tokenType,
 		Literal:   string(s.src[s.start:s.cur]),
-		Indent:    s.indent,
+		Indent:    s.startIndent,
 		Range:     s.currentRange(),
 		AliasInfo: nil,
 	}
@@ -378,7 +379,7 @@ func (s *Scanner) errorToken(msg string) token.Token {
 	return token.Token{
 		Type:      token.ILLEGAL,
 		Literal:   msg,
-		Indent:    s.indent,
+		Indent:    s.startIndent,
 		Range:     s.currentRange(),
 		AliasInfo: nil,
 	}
